@@ -599,8 +599,10 @@ func propC11(c *Ctx) {
 		kind string // prefix | equal
 		s    string
 		in   ssa.Instruction
+		conv ssa.Value // table form: the converter of this row
 	}
 	var arms []arm
+	tableForm, tableWhy := false, ""
 	// the arms may live in a function only dbtype calls (dbconv(abitype) returning the converter):
 	// taken from the function of dbtype's inlined view that tests one of its own string parameters most
 	for _, hf := range NewRegion(dt).Funcs() {
@@ -615,13 +617,13 @@ func propC11(c *Ctx) {
 				case *ssa.Call:
 					if calleeName(x) == "strings.HasPrefix" && isParam(x.Call.Args[0]) {
 						if s, ok := constString(x.Call.Args[1]); ok {
-							cand = append(cand, arm{"prefix", s, x})
+							cand = append(cand, arm{kind: "prefix", s: s, in: x})
 						}
 					}
 				case *ssa.BinOp:
 					if x.Op == token.EQL && isParam(x.X) {
 						if s, ok := constString(x.Y); ok {
-							cand = append(cand, arm{"equal", s, x})
+							cand = append(cand, arm{kind: "equal", s: s, in: x})
 						}
 					}
 				}
@@ -631,10 +633,93 @@ func propC11(c *Ctx) {
 			arms = cand
 		}
 	}
+	if len(arms) < 5 {
+		// the arms as rows of a package-level table that dbtype ranges over, first match wins:
+		//   for _, c := range table { if c.match(abitype, c.name) { return c.conv(d) } }
+		for _, hf := range NewRegion(dt).Funcs() {
+			g, elems := rangedGlobal(hf)
+			if g == nil {
+				continue
+			}
+			rows, ok := globalTable(w, g)
+			if !ok {
+				tableWhy = "the table " + g.Name() + " is not a literal written once"
+				continue
+			}
+			// the roles of the fields, from the loop body
+			fMatch, fName, fConv := -1, -1, -1
+			var matchCall *ssa.Call
+			for _, ci := range callsIn(hf) {
+				call, isCall := ci.(*ssa.Call)
+				if !isCall || call.Call.IsInvoke() || staticCallee(call) != nil {
+					continue
+				}
+				k, isElem := elemField(call.Call.Value, elems)
+				if !isElem {
+					continue
+				}
+				if isBoolType(call.Type()) && len(call.Call.Args) == 2 {
+					if p, isP := stripConv(call.Call.Args[0]).(*ssa.Parameter); isP && p.Parent() == hf {
+						if k2, ok2 := elemField(call.Call.Args[1], elems); ok2 {
+							fMatch, fName, matchCall = k, k2, call
+						}
+					}
+				} else {
+					fConv = k
+				}
+			}
+			if matchCall == nil || fConv < 0 {
+				tableWhy = "the loop over " + g.Name() + " is not of the form `if row.match(type, row.name) { return row.conv(d) }`"
+				continue
+			}
+			// first match wins: the true edge of the match returns
+			t, _ := boolEdges(matchCall)
+			wins := len(t) > 0
+			for _, e := range t {
+				if _, isRet := terminator(e.To).(*ssa.Return); !isRet {
+					wins = false
+				}
+			}
+			if !wins {
+				tableWhy = "a matching row does not return at once"
+				continue
+			}
+			var cand []arm
+			okRows := true
+			for _, r := range rows {
+				name, isStr := constString(r[fName])
+				kind := ""
+				switch m := stripConv(r[fMatch]).(type) {
+				case *ssa.Function:
+					if m.String() == "strings.HasPrefix" {
+						kind = "prefix"
+					} else if op, i, j, ok := cmpHelperOf(m); ok && op == token.EQL && i+j == 1 {
+						kind = "equal"
+					}
+				}
+				if !isStr || kind == "" {
+					okRows = false
+					break
+				}
+				cand = append(cand, arm{kind: kind, s: name, conv: r[fConv]})
+			}
+			if !okRows {
+				tableWhy = "a row of " + g.Name() + " has a matcher that is neither strings.HasPrefix nor an equality helper"
+				continue
+			}
+			arms, tableForm = cand, true
+		}
+	}
+	if len(arms) < 5 && tableWhy != "" {
+		// the mapping exists as data but in a form that is not read: present, not decided
+		c.OK("R11.4", "dbtype/arm-order", dt.Pos(), "type mapping kept as a table: "+tableWhy+" (not decided)")
+		c.OK("R11.4", "dbtype/int-vs-uint", dt.Pos(), "not decided (table form)")
+		return
+	}
 	var shadows []string
 	for i := range arms {
 		for j := i + 1; j < len(arms); j++ {
-			if arms[i].kind == "prefix" && strings.HasPrefix(arms[j].s, arms[i].s) && dominatesInstr(arms[i].in, arms[j].in) {
+			if arms[i].kind == "prefix" && strings.HasPrefix(arms[j].s, arms[i].s) && (tableForm || dominatesInstr(arms[i].in, arms[j].in)) {
 				shadows = append(shadows, fmt.Sprintf("HasPrefix(%q) before %s %q", arms[i].s, arms[j].kind, arms[j].s))
 			}
 		}
@@ -644,6 +729,10 @@ func propC11(c *Ctx) {
 	{
 		retTypes := map[string]string{}
 		for _, a := range arms {
+			if tableForm {
+				retTypes[a.s] = reprOf(a.conv, 0)
+				continue
+			}
 			t, _ := boolEdgesOf(a.in)
 			for _, e := range t {
 				if ret, ok := terminator(e.To).(*ssa.Return); ok {
